@@ -4,8 +4,8 @@
 P=$1; T=$2; shift 2
 cd /verif || exit 2
 git -C /repo diff --quiet || { echo "/repo is dirty"; exit 2; }
-git -C /repo apply "$P" || { echo "PATCH DOES NOT APPLY"; exit 2; }
-trap 'git -C /repo checkout -q -- .' EXIT
+git -C /repo apply "$P" 2>/dev/null || git -C /repo apply -3 "$P" 2>/dev/null || { git -C /repo reset -q --hard HEAD; echo "PATCH DOES NOT APPLY"; exit 2; }
+trap 'git -C /repo reset -q --hard HEAD' EXIT
 for c in "$@"; do
   ./check "$c" --tier "$T" 2>&1 | tail -4; echo "rc=$?  (${PIPESTATUS[0]})"
 done
